@@ -40,9 +40,11 @@ type context struct {
 	store     *py.ModuleStore
 	opts      py.ContextOpts
 	closeOnce sync.Once
+	mu        sync.Mutex // guards closing, closed and running
+	idle      *sync.Cond // signalled (with mu held) when running drops to zero
 	closing   bool
 	closed    bool
-	running   sync.WaitGroup
+	running   int
 	done      chan struct{}
 }
 
@@ -56,6 +58,7 @@ func NewContext(opts py.ContextOpts) py.Context {
 		closing: false,
 		closed:  false,
 	}
+	ctx.idle = sync.NewCond(&ctx.mu)
 
 	ctx.store = py.NewModuleStore()
 
@@ -71,10 +74,10 @@ func NewContext(opts py.ContextOpts) py.Context {
 // ModuleInit digests a ModuleImpl, compiling and marshalling as needed, creating a new Module instance in this Context.
 func (ctx *context) ModuleInit(impl *py.ModuleImpl) (*py.Module, error) {
 	err := ctx.pushBusy()
-	defer ctx.popBusy()
 	if err != nil {
 		return nil, err
 	}
+	defer ctx.popBusy()
 
 	if impl.Code == nil && len(impl.CodeSrc) > 0 {
 		impl.Code, err = py.Compile(string(impl.CodeSrc), impl.Info.FileDesc, py.ExecMode, 0, true)
@@ -113,10 +116,10 @@ func (ctx *context) ModuleInit(impl *py.ModuleImpl) (*py.Module, error) {
 // See interface py.Context defined in py/run.go
 func (ctx *context) ResolveAndCompile(pathname string, opts py.CompileOpts) (py.CompileOut, error) {
 	err := ctx.pushBusy()
-	defer ctx.popBusy()
 	if err != nil {
 		return py.CompileOut{}, err
 	}
+	defer ctx.popBusy()
 
 	tryPaths := defaultPaths
 	if opts.UseSysPaths {
@@ -192,24 +195,41 @@ func (ctx *context) ResolveAndCompile(pathname string, opts py.CompileOpts) (py.
 	return out, nil
 }
 
+// pushBusy admits an execution unless the context is closed.
+// The check and the increment are one critical section, so that Close
+// can never observe running == 0 between the two.
 func (ctx *context) pushBusy() error {
+	ctx.mu.Lock()
+	defer ctx.mu.Unlock()
 	if ctx.closed {
 		return py.ExceptionNewf(py.RuntimeError, "Context closed")
 	}
-	ctx.running.Add(1)
+	ctx.running++
 	return nil
 }
 
+// popBusy must only be called after a successful pushBusy.
 func (ctx *context) popBusy() {
-	ctx.running.Done()
+	ctx.mu.Lock()
+	ctx.running--
+	if ctx.running == 0 {
+		ctx.idle.Broadcast()
+	}
+	ctx.mu.Unlock()
 }
 
 // See interface py.Context defined in py/run.go
 func (ctx *context) Close() error {
 	ctx.closeOnce.Do(func() {
+		// Wait for the admitted executions and mark the context closed in one
+		// critical section so nothing can be admitted once the wait is over.
+		ctx.mu.Lock()
 		ctx.closing = true
-		ctx.running.Wait()
+		for ctx.running > 0 {
+			ctx.idle.Wait()
+		}
 		ctx.closed = true
+		ctx.mu.Unlock()
 
 		// Give each module a chance to release resources
 		ctx.store.OnContextClosed()
@@ -279,10 +299,10 @@ func resolveRunPath(runPath string, opts py.CompileOpts, pathObjs []py.Object, t
 // See interface py.Context defined in py/run.go
 func (ctx *context) RunCode(code *py.Code, globals, locals py.StringDict, closure py.Tuple) (py.Object, error) {
 	err := ctx.pushBusy()
-	defer ctx.popBusy()
 	if err != nil {
 		return nil, err
 	}
+	defer ctx.popBusy()
 
 	return vm.EvalCode(ctx, code, globals, locals, nil, nil, nil, nil, closure)
 }
